@@ -783,6 +783,15 @@ theorem socket_read_back_any_cuts (e : Endian) (ops : List WOp) (cuts : List Nat
   rw [List.append_nil] at h
   rw [(socket_read_any_cuts _ e cuts _).1, h]
 
+/-- `Socket >> String` over pieces (length prefix and body may both be cut): the same string and the same pending bytes
+    as on the concatenation, `none` (the call would block) in the same cases -/
+theorem socket_string_read_fragment_independent (e : Endian) (ps : List (List UInt8)) (h : AslProofs.StreamFrag.Live ps) :
+    (getStringFrag e ps).map (fun r => (r.1, r.2.flatten)) = getString .sock e ps.flatten :=
+  (AslProofs.StreamFrag.getStringFrag_spec e ps h).1
+
+example : getStringFrag .big [[0, 0], [0, 3, 65], [66, 67, 9]] = some ([65, 66, 67], [[9]]) ∧
+    getString .sock .big [0, 0, 0, 3, 65, 66, 67, 9] = some ([65, 66, 67], [9]) := by decide
+
 /-- non-vacuity: a big-endian short and int cut inside both values (three `recv` calls for the int) -/
 example : cutPieces [1, 3, 5] [1, 2, 3, 4, 5, 6] = [[1], [2, 3], [4, 5], [6]] ∧
     AslProofs.StreamFrag.Live (cutPieces [1, 3, 5] [1, 2, 3, 4, 5, 6]) ∧
